@@ -41,4 +41,113 @@ theorem zip_self_map {α β γ} (f : α → β) (g : α × β → γ) (l : List 
   | nil => rfl
   | cons a t ih => simp [ih]
 
+
+/-! ### rendering a measure does not depend on the order of its slots -/
+
+
+open Reamber.Timing Reamber.SM
+
+theorem rect_ext {G G' : List (List Char)} {n k : Nat} (h : Rect G n k) (h' : Rect G' n k)
+    (hc : ∀ r c, r < n → c < k → cellAt G r c = cellAt G' r c) : G = G' := by
+  apply List.ext_getElem
+  · rw [h.1, h'.1]
+  · intro r h1 h2
+    have hr : r < n := by rw [← h.1]; exact h1
+    have l1 : G[r].length = k := h.2 _ (List.getElem_mem h1)
+    have l2 : G'[r].length = k := h'.2 _ (List.getElem_mem h2)
+    apply List.ext_getElem
+    · rw [l1, l2]
+    · intro c hc1 hc2
+      have hck : c < k := by rw [← l1]; exact hc1
+      have := hc r c hr hck
+      simp only [cellAt, List.getD_eq_getElem?_getD, List.getElem?_eq_getElem h1, List.getElem?_eq_getElem h2,
+        Option.getD_some, List.getElem?_eq_getElem hc1, List.getElem?_eq_getElem hc2] at this
+      exact this
+
+theorem lcm_right_comm (a b c : Nat) : Nat.lcm (Nat.lcm a b) c = Nat.lcm (Nat.lcm a c) b := by
+  rw [Nat.lcm_assoc, Nat.lcm_comm b c, ← Nat.lcm_assoc]
+
+theorem foldl_lcm_perm {l l' : List Nat} (h : l.Perm l') (a : Nat) : l.foldl Nat.lcm a = l'.foldl Nat.lcm a := by
+  induction h generalizing a with
+  | nil => rfl
+  | cons x _ ih => simp only [List.foldl_cons]; exact ih _
+  | swap x y l => simp only [List.foldl_cons]; rw [lcm_right_comm]
+  | trans _ _ ih1 ih2 => exact (ih1 a).trans (ih2 a)
+
+/-- the row count of a measure whose lcm fits the cap: the plain lcm of the denominators -/
+theorem denMax_eq_lcm (l : List Nat) (hne : l ≠ []) (hpos : ∀ x ∈ l, 0 < x) (hfit : l.foldl Nat.lcm 1 ≤ maxSnap) :
+    denMax l = l.foldl Nat.lcm 1 := by
+  cases l with
+  | nil => exact absurd rfl hne
+  | cons d t =>
+    have e1 : (d :: t).foldl Nat.lcm 1 = t.foldl Nat.lcm d := by simp [Nat.lcm_one_left]
+    rw [e1] at hfit ⊢
+    have hd : 0 < d := hpos d (by simp)
+    have ht : ∀ x ∈ t, 0 < x := fun x hx => hpos x (List.mem_cons_of_mem _ hx)
+    simp only [denMax, C03.foldl_capLcm_eq d t hd ht hfit]
+    exact Nat.min_eq_left hfit
+
+theorem denMax_perm {l l' : List Nat} (h : l.Perm l') (hpos : ∀ x ∈ l, 0 < x) (hfit : l.foldl Nat.lcm 1 ≤ maxSnap) :
+    denMax l = denMax l' := by
+  by_cases hne : l = []
+  · subst hne; rw [List.Perm.nil_eq h]
+  · have hne' : l' ≠ [] := fun e => hne (by subst e; exact List.Perm.eq_nil h)
+    rw [denMax_eq_lcm l hne hpos hfit,
+      denMax_eq_lcm l' hne' (fun x hx => hpos x (h.mem_iff.mpr hx)) (by rw [← foldl_lcm_perm h]; exact hfit),
+      foldl_lcm_perm h]
+
+/-- what the property's quantifier grants for the objects of one measure: the lcm of the denominators fits the cap
+(no row is rounded), every object lies inside the grid, no two objects share a cell -/
+structure MeasureOk (keys : Nat) (g : List Slot) : Prop where
+  pos : ∀ s ∈ g, 0 < s.den
+  fit : (g.map (·.den)).foldl Nat.lcm 1 ≤ maxSnap
+  inside : ∀ s ∈ g, rowOf s.num s.den (denMax (g.map (·.den))) < denMax (g.map (·.den)) ∧ s.col < keys
+  nocoll : (g.map (fun s => ((cellOf (denMax (g.map (·.den))) s).1, (cellOf (denMax (g.map (·.den))) s).2.1))).Nodup
+
+/-- **a measure's grid is a function of the SET of its cells** -/
+theorem fillMeasure_perm (keys : Nat) {g g' : List Slot} (hp : g.Perm g') (hok : MeasureOk keys g) :
+    fillMeasure keys g = fillMeasure keys g' := by
+  have hd : denMax (g.map (·.den)) = denMax (g'.map (·.den)) :=
+    denMax_perm (hp.map _) (by
+      intro x hx; obtain ⟨s, hs, rfl⟩ := List.mem_map.mp hx; exact hok.pos s hs) hok.fit
+  have hin' : ∀ s ∈ g', rowOf s.num s.den (denMax (g'.map (·.den))) < denMax (g'.map (·.den)) ∧ s.col < keys := by
+    intro s hs; rw [← hd]; exact hok.inside s (hp.mem_iff.mpr hs)
+  have hnc' : (g'.map (fun s => ((cellOf (denMax (g'.map (·.den))) s).1,
+      (cellOf (denMax (g'.map (·.den))) s).2.1))).Nodup := by
+    rw [← hd]; exact (hp.map _).nodup_iff.mp hok.nocoll
+  obtain ⟨G, e, R, a1, a2⟩ := C03.cells_no_collision keys g hok.inside hok.nocoll
+  obtain ⟨G', e', R', b1, b2⟩ := C03.cells_no_collision keys g' hin' hnc'
+  rw [e, e']
+  congr 1
+  rw [← hd] at R' b1 b2
+  apply rect_ext R R'
+  intro r c _ _
+  by_cases hex : ∃ s ∈ g, rowOf s.num s.den (denMax (g.map (·.den))) = r ∧ s.col = c
+  · obtain ⟨s, hs, hr, hc⟩ := hex
+    rw [← hr, ← hc, a1 s hs, b1 s (hp.mem_iff.mp hs)]
+  · have hno : ∀ s ∈ g, ¬ (rowOf s.num s.den (denMax (g.map (·.den))) = r ∧ s.col = c) :=
+      fun s hs hh => hex ⟨s, hs, hh⟩
+    rw [a2 r c hno, b2 r c (fun s hs => hno s (hp.mem_iff.mpr hs))]
+
+theorem writeLoop_perm (keys : Nat) {slots slots' : List Slot} (hp : slots.Perm slots')
+    (hok : ∀ m : Int, MeasureOk keys (slots.filter (fun s => s.measure = m))) :
+    ∀ (ms : List Int) (prev : Int), writeLoop keys slots prev ms = writeLoop keys slots' prev ms := by
+  intro ms
+  induction ms with
+  | nil => intro prev; rfl
+  | cons m rest ih =>
+    intro prev
+    simp only [writeLoop, fillMeasure_perm keys (hp.filter _) (hok m), ih m]
+
+theorem measuresSorted_perm {slots slots' : List Slot} (hp : slots.Perm slots') :
+    measuresSorted slots = measuresSorted slots' := by
+  unfold measuresSorted
+  congr 1
+  apply Timing.isort_eq_of_perm
+  · exact ⟨fun a b => by simp only [decide_eq_true_eq]; omega, fun a b c => by simp only [decide_eq_true_eq]; omega⟩
+  · intro a b h1 h2
+    simp only [decide_eq_true_eq] at h1 h2
+    omega
+  · exact hp.map _
+
 end Reamber.PermInv
